@@ -97,7 +97,7 @@ def recover(tier, idx, d, L, entry):
 
 
 def jobs(tier, seed):
-    js = []
+    js = [Job("eg-validate", "harness.egcommon:validate_eg", tier=tier)]
     for i, tc in enumerate(E.toy_curves(tier)):
         n = tc["n"]
         if n > (11 if tier == "quick" else 19):
